@@ -379,6 +379,21 @@ def run_case(case) -> Outcome:
             return out.bad("host-output-changed", case, f"the surrounding program's own block {hb[0]:#x}:{hb[1].hex()} is missing/changed; calls {driver.blocks_json(res['blocks'], 16)}")
     if sorted(res["labels"]) != sorted(host["labels"]):
         out.bad("host-labels-changed", case, f"labels with directive {res['labels']} vs without {host['labels']}")
+    if (len(recs) + abs(delta)) % 4 == 0 and all(o >= 0 for o, _ in expected) and sum(len(d) for _, d in expected) < 200000:
+        # the same program read from src/main.s while other files called p.ips lie next to it: the patch named by the directive is the
+        # one in the working directory (paths are relative to it), and the written patch has its records
+        f = driver.assemble_file_api(src, fmt="ips", files={"p.ips": {"hex": blob.hex()}}, env={"subdir": True})
+        out.evals += 1
+        out.labels.append("source-in-subdirectory")
+        if f["status"] != "ok" or f["rc"] not in (0, None):
+            out.bad("subdir:failed", case, f"assembling src/main.s (a decoy p.ips beside it) failed: {f['status']} rc={f['rc']} {f['exc']} {f['msg'][:160]}")
+        else:
+            try:
+                parsed = ips.parse(f["output"] or b"")
+                if ips.apply([(o, d) for o, d, _ in parsed]) != ips.apply(list(res["blocks"])):
+                    out.bad("subdir:effect", case, f"the patch written for src/main.s differs from the in-memory result: records {[(hex(o), len(d)) for o, d, _ in parsed][:6]}")
+            except ips.IpsError as e:
+                out.bad("subdir:unparseable", case, f"output patch: {e}")
     got = ips.normalise(calls)
     want = ips.normalise(expected)
     if got != want:
